@@ -191,6 +191,13 @@ func New(o Options) *Rig {
 		if strings.HasPrefix(rq.URL.Path, "/mute/") {
 			bc.startRead, bc.peerClosed = make(chan struct{}), make(chan bool, 1)
 		}
+		slow := strings.HasPrefix(rq.URL.Path, "/slow/")
+		if slow {
+			// a server that reads slowly through a small receive buffer: the agent's writes meet back-pressure
+			if tc, ok := c.UnderlyingConn().(*net.TCPConn); ok {
+				tc.SetReadBuffer(64 << 10)
+			}
+		}
 		r.mu.Lock()
 		r.conns[bc.Key] = bc
 		r.mu.Unlock()
@@ -214,6 +221,9 @@ func New(o Options) *Rig {
 			}
 		}
 		for {
+			if slow {
+				time.Sleep(15 * time.Millisecond)
+			}
 			t, data, err := c.ReadMessage()
 			if err != nil {
 				return
